@@ -63,6 +63,17 @@ RECURSIVE ApplySeq(_, _)
 ApplySeq(S, ops) == IF ops = <<>> THEN S ELSE ApplySeq(Apply(S, Head(ops)).set, Tail(ops))
 AsHist(ops) == [i \in 1..Len(ops) |-> <<ops[i].op, ops[i].a, ops[i].b, ops[i].k>>]
 
+\* ---- third family: pairs of small ranges in every relative position (disjoint, abutting, overlapping
+\* by one, starting exactly at the other's last member, nested), and single members against a range
+SmallRanges == {<<100, 200>>, <<199, 260>>, <<200, 300>>, <<150, 160>>, <<50, 100>>, <<50, 101>>, <<0, 1>>,
+                <<65500, 65535>>, <<99, 100>>}
+RangeWalks ==
+  {<< O("AddRange", r1[1], r1[2], ""), O(op, r2[1], r2[2], "") >> : r1 \in SmallRanges, r2 \in SmallRanges,
+                                                                   op \in {"AddRange", "RemoveRange"}}
+  \cup {<< O("Add", x, 0, ""), O("AddRange", r[1], r[2], "") >> : x \in {99, 100, 199, 200, 259}, r \in SmallRanges}
+  \cup {<< O("AddRange", r[1], r[2], ""), O(op, x, 0, "") >> : x \in {99, 100, 199, 200}, r \in SmallRanges,
+                                                               op \in {"Add", "Remove"}}
+
 VARIABLES set, hist
 vars == <<set, hist>>
 Init == set = Empty /\ hist = <<>>
@@ -78,7 +89,13 @@ Step(o) == /\ Len(hist) < Depth
            /\ set' = Apply(set, o).set
            /\ hist' = Append(hist, <<o.op, o.a, o.b, o.k>>)
            /\ (Len(hist') = Depth => PrintT(<<"WALK", hist'>>))
-Next == (\E o \in Alphabet : Step(o)) \/ Algebra
+Ranges == /\ hist = <<>>
+          /\ \E w \in RangeWalks :
+               LET h == AsHist(w) IN
+               /\ set' = ApplySeq(Empty, w)
+               /\ hist' = h \o [i \in 1..(Depth + 1 - Len(h)) |-> <<"Optimize", 0, 0, "">>]
+               /\ PrintT(<<"WALK", hist'>>)
+Next == (\E o \in Alphabet : Step(o)) \/ Algebra \/ Ranges
 Spec == Init /\ [][Next]_vars
 
 \* invariants of the abstract machine itself
